@@ -550,6 +550,9 @@ pub struct HEnt {
     pub hid: usize,
     pub aid: usize,
     pub h: H,
+    /// this address (or the one it was cloned / downgraded from) was awaited to completion through
+    /// `&mut`: its shared running-future is used up, polling it again panics (finding F9)
+    pub spent: bool,
 }
 
 #[derive(Default)]
